@@ -211,6 +211,8 @@ fn part() -> HistPart<Mon, impl Fn(&Setup) -> Mon + Sync> {
     p.timers_weight = 35;
     p.max_len = 110;
     p.packet_resize = false;
+    // change_identity to a different address is legal API use and moves the instance's own backlog key
+    p.change_addr = true;
     let mut sp = SetupProfile::default();
     sp.codecs = vec![CodecKind::Fix, CodecKind::Var, CodecKind::Postcard];
     sp.packet = vec![(18, 40), (40, 90), (90, 200), (1400, 1401)];
